@@ -248,7 +248,8 @@ class MetricsContext:
                 trace_id=trace_id,
                 scope=name,
                 logger=logger or current._logger,  # pyright: ignore[reportPrivateUsage]
-                parent=current,
+                # already completed scope (i.e. inherited by a long running task) can't get new nested scopes
+                parent=current if not current._completed.done() else None,  # pyright: ignore[reportPrivateUsage]
                 completion=completion,
             )
         )
